@@ -30,10 +30,10 @@ package sender
 //@ site call Enqueue assert has_key(w.plugins, recv.Type) && self == w.plugins[recv.Type]
 //@ site call Enqueue assert logicalRecv != nil && has_key(w.targets, *logicalRecv) && w.targets[*logicalRecv] != nil ==> recv == w.targets[*logicalRecv]
 //@ site call Enqueue assert logicalRecv == nil ==> recv == physicalRecv
-//@ ensures [C08 C12 C19] calls("enqueue_cqe") + calls("plugin_enqueue") >= 1 && calls("enqueue_cqe") <= 1 && calls("plugin_enqueue") <= 1
-//@ ensures [C08 C12 C19] calls("plugin_enqueue") == 1 && callres("plugin_enqueue", 0, 0) ==> calls("enqueue_cqe") == 0
-//@ ensures [C08 C12 C19] calls("plugin_enqueue") == 1 && !callres("plugin_enqueue", 0, 0) ==> calls("enqueue_cqe") == 1
-//@ ensures [C08 C12 C19] calls("enqueue_cqe") == 1 ==> callarg("enqueue_cqe", 0, 1).Id == sqe.Id && callarg("enqueue_cqe", 0, 1).Error != nil && callarg("enqueue_cqe", 0, 1).Completion == nil
+//@ ensures [C06 C08 C12 C19] calls("enqueue_cqe") + calls("plugin_enqueue") >= 1 && calls("enqueue_cqe") <= 1 && calls("plugin_enqueue") <= 1
+//@ ensures [C06 C08 C12 C19] calls("plugin_enqueue") == 1 && callres("plugin_enqueue", 0, 0) ==> calls("enqueue_cqe") == 0
+//@ ensures [C06 C08 C12 C19] calls("plugin_enqueue") == 1 && !callres("plugin_enqueue", 0, 0) ==> calls("enqueue_cqe") == 1
+//@ ensures [C06 C08 C12 C19] calls("enqueue_cqe") == 1 ==> callarg("enqueue_cqe", 0, 1).Id == sqe.Id && callarg("enqueue_cqe", 0, 1).Error != nil && callarg("enqueue_cqe", 0, 1).Completion == nil
 
 //@ func schemeToRecv
 //@ props C19
